@@ -32,7 +32,8 @@ META = {
     "bounds": ["all 2^16 16-bit frames x device types 0..255", "all 2^24 24-bit frames, no map",
                "all device/instance-scheme event frames x a map with one symbolic entry "
                "(short address 0..63, instance 0..31, type 0..255) or none",
-               "widths 1..64 other than 16/24 with fully symbolic data"],
+               "widths 1..64 other than 16/24 with fully symbolic data",
+               "thorough: device types 0..65535; maps with two symbolic entries; all 2^24 frames under a map"],
     "stubs": ["isinstance/int/bytes shims", "SymDict around the opcode/instance-type registries",
               "SymKeyDict as DeviceInstanceTypeMapper._mapping in symbolic mode (plain dict in the "
               "concrete cross-validation run)", "text tokens for formatted symbolic ints"],
@@ -82,9 +83,9 @@ def _check_decode(ctx, f, x, width, dt, dmap, tag):
     return name
 
 
-def h16(ctx, lo=0, hi=0xFFFF):
+def h16(ctx, lo=0, hi=0xFFFF, dtmax=255):
     x = ctx.fresh("x", lo, hi)
-    dt = ctx.fresh("dt", 0, 255)
+    dt = ctx.fresh("dt", 0, dtmax)
     return _check_decode(ctx, F.ForwardFrame(16, x), x, 16, dt, None, "h16")
 
 
@@ -94,12 +95,17 @@ def h24(ctx):
     return _check_decode(ctx, F.ForwardFrame(24, x), x, 24, dt, None, "h24")
 
 
-def h24map(ctx):
+def h24map(ctx, entries=1, anyframe=False):
     x = ctx.fresh("x", 0, 0xFFFFFF)
-    # event space, device/instance scheme: bit 16 = 0, bit 23 = 0, bit 15 = 1
-    ctx.assume(E.eq(x & 0x818000, 0x008000))
+    if not anyframe:
+        # event space, device/instance scheme: bit 16 = 0, bit 23 = 0, bit 15 = 1
+        ctx.assume(E.eq(x & 0x818000, 0x008000))
     m = helpers.DeviceInstanceTypeMapper()
     m._mapping = newdict(ctx)
+    for e in range(1, entries):
+        # further entries, filled through the real add_type with symbolic keys and types
+        m.add_type(short_address=ctx.fresh("ka%d" % e, 0, 63), instance_number=ctx.fresh("ki%d" % e, 0, 31),
+                   instance_type=ctx.fresh("t%d" % e, 0, 255))
     if ctx.fresh_bool("has_entry"):
         ka = ctx.fresh("ka", 0, 63)
         ki = ctx.fresh("ki", 0, 31)
@@ -124,9 +130,16 @@ def hlen(ctx, B):
 
 
 def cases(tier):
-    return [
-        Case("h16", h16, {}, shards=16, shard_depth=8),
-        Case("h24", h24, {}, shards=16, shard_depth=8),
-        Case("h24map", h24map, {}, shards=8, shard_depth=6),
+    cs = [
+        Case("h16", h16, {}),
+        Case("h24", h24, {}),
+        Case("h24map", h24map, {}),
         Case("hlen", hlen, {"B": 64}, width=128),
     ]
+    if tier == "thorough":
+        cs += [
+            Case("h16-dt16", h16, {"dtmax": 0xFFFF}),           # claimed device types beyond one byte
+            Case("h24map-2", h24map, {"entries": 2}),           # two map entries (keys may coincide)
+            Case("h24map-any", h24map, {"anyframe": True}),     # a map must not disturb any other 24-bit frame
+        ]
+    return cs
